@@ -22,6 +22,7 @@ broadcast use {axiom_biguint_ext, axiom_bigint_ext};
 //@ include units/C04/constant.rs
 //@ include units/C04/expression.rs
 //@ include units/C04/builders.rs
+//@ include units/C04/subst.rs
 
 proof fn vf_canary_il() ensures false {}
 } // mod il
